@@ -118,6 +118,7 @@ class ContractSet:
         self.ghosts = {}    # typename (pkg.T) -> {field: typetext}
         self.lemmas = []
         self.files = []
+        self.pkg_invs = {}      # pkg -> [Clause]: facts about package-level variables, assumed at entry
         self.execs = {}         # (pkg, spec name) -> Go function literal
         self.exec_imports = {}  # pkg -> {alias: path}
 
@@ -347,6 +348,8 @@ def parse_file(path, cs, repo='/repo', default_pkg=None):
                           exprparse.parse(body) if body else None,
                           exprparse.parse(dec) if dec else None, rest, path, n, imports)
             cs.specs[(pkg, name)] = sf
+        elif kw == 'pkg-invariant':
+            cs.pkg_invs.setdefault(pkg, []).append(mk(rest))
         elif kw == 'exec':
             nm, _, code = rest.partition(' ')
             cs.execs[(pkg, nm)] = code.strip()
